@@ -12,8 +12,8 @@ COMMON_ASSUME = [
 ]
 
 
-def cfgs(names, profile="rel", args=None):
-    return [{"cfg": n, "profile": profile, "args": list(args or [])} for n in names]
+def cfgs(names, profile="rel", args=None, features=""):
+    return [{"cfg": n, "profile": profile, "args": list(args or []), "features": features if "fmt" in n else ""} for n in names]
 
 
 CHECKS = {
@@ -141,8 +141,8 @@ CHECKS = {
     "C10": {
         "bin": "c10",
         "crash_is_violation": True,
-        "quick": cfgs(["dflt", "rdxfmt"]) + cfgs(["rdxfmt"], profile="reldbg"),
-        "thorough": cfgs(["dflt", "fmt", "rdxfmt", "cmprdxfmt"]) + cfgs(["dflt", "rdxfmt", "cmprdxfmt"], profile="reldbg"),
+        "quick": cfgs(["dflt", "rdxfmt"], features="catalogue") + cfgs(["rdxfmt"], profile="reldbg", features="catalogue"),
+        "thorough": cfgs(["dflt", "fmt", "rdxfmt", "cmprdxfmt"], features="catalogue") + cfgs(["dflt", "rdxfmt", "cmprdxfmt"], profile="reldbg", features="catalogue"),
         "rule": "every raw byte string up to length 2 (+ every third byte after a byte that can start a number; thorough: all 256^3) through the default "
                 "API of all 14 types; every string of <= L tokens over a per-format alphabet {+,-,0,1,max digit,point,exponent char in both cases,"
                 "separator,prefix,suffix,n,i,comma} and long digit strings (3..41 and 400..1200 digits, one or two separators at every position) through "
@@ -155,8 +155,8 @@ CHECKS = {
     },
     "C11": {
         "bin": "c10",
-        "quick": cfgs(["dflt", "rdxfmt"], args=["--c11"]),
-        "thorough": cfgs(["dflt", "fmt", "rdxfmt", "cmprdxfmt"], args=["--c11"]),
+        "quick": cfgs(["dflt", "rdxfmt"], args=["--c11"], features="catalogue"),
+        "thorough": cfgs(["dflt", "fmt", "rdxfmt", "cmprdxfmt"], args=["--c11"], features="catalogue"),
         "rule": "same enumeration as C10; relational oracle, no reference model: parse(s) = Ok(v) <=> parse_partial(s) = Ok((v, len)); and "
                 "parse_partial(s) = Ok((v, n)) with 0 < n < len => parse(s[..n]) = Ok(v); floats by bits, NaN by class; STANDARD options and custom "
                 "punctuation (',' decimal point, '^' exponent); non-trivial = inputs accepted by the complete parser",
@@ -165,8 +165,8 @@ CHECKS = {
     },
     "C12": {
         "bin": "c12",
-        "quick": cfgs(["rdxfmt"]),
-        "thorough": cfgs(["rdxfmt", "fmt", "cmprdxfmt"]),
+        "quick": cfgs(["rdxfmt"], features="catalogue"),
+        "thorough": cfgs(["rdxfmt", "fmt", "cmprdxfmt"], features="catalogue"),
         "rule": "every string of <= L tokens over the per-format alphabet {+,-,0,1,max digit,point,exponent char in both cases,prefix and suffix letters "
                 "in both cases,nan,NaN,inf,Inf,infinity,n,i,comma} x every catalogued format without separator flags (STANDARD, each of the 18 syntax "
                 "flags alone, full power set of the 7 digit/notation flags, sign cluster, special cluster, leading-zero x prefix cluster, case-sensitivity "
@@ -179,8 +179,8 @@ CHECKS = {
     },
     "C13": {
         "bin": "c13",
-        "quick": cfgs(["rdxfmt"]),
-        "thorough": cfgs(["rdxfmt", "fmt", "cmprdxfmt"]),
+        "quick": cfgs(["rdxfmt"], features="catalogue"),
+        "thorough": cfgs(["rdxfmt", "fmt", "cmprdxfmt"], features="catalogue"),
         "rule": "formats: each of the 15 valid internal/leading/trailing/consecutive flag combinations on the integer, fraction or exponent component alone "
                 "and on all three (60), plus other separator bytes (',', quote, a letter), hex with binary exponent, hex/decimal with hexadecimal exponent "
                 "digits, separator+prefix+suffix, integer-only separators (8); types f64, f32, i64, u128. (a) every string of <= L tokens over "
